@@ -32,6 +32,9 @@ def run(chk):
         batcher.tokio_worker_runtime(chk, P, "C08")
         from . import c07
         c07.otlp_flush_budget(chk, P, "C08.R4:otlp-flush-budget")
+        from . import c11
+        chk.ob("C08.R6:file-retention-terminates", "the file worker's retention loop shrinks its listing on every iteration (a failing delete cannot wedge on_batch)",
+               lambda: c11.retention_terminates(P))
     batcher.retry_remainder(chk, P, "C08")
     batcher.tokio_wait(chk, P, "C08")
     batcher.time_arithmetic(chk, P, "C08")
